@@ -515,3 +515,86 @@ def check_transitions(model: Model, report: Any, rule: str) -> None:
         if st == "lex_descendant_segment":
             expect(st, "-", steps, "'['", lambda s: _first(s) == "[", lambda s: None if ([t[0] for t in s.tokens] == ["LBRACKET"] and s.next_state == B and s.brackets_after == ["["]) else "'..[' must emit LBRACKET, record it and enter the bracketed segment")
             expect(st, "-", steps, "end of input", lambda s: s.at_end, lambda s: None if s.error or s.raised else "a bald '..' must be an error")
+
+
+def check_function_dispatch(model: Model, report: Any, rule: str) -> None:
+    """Every RFC function name followed by '(' reaches the branch that emits FUNCTION.
+
+    The name regex alone (rule L5) does not decide this: the branch is one arm of a ladder, and every test the ladder
+    makes before it (a keyword accepted by prefix, a number pattern) takes texts away from it.  The language reaching
+    the FUNCTION arm is computed from the path facts of the interpreted state function:
+        L(name regex) . "(" . any*   minus   c . any*  for each constant c tested and refused at the pointer
+                                     minus   L(p) . any*  for each pattern p tried and refused at the pointer
+                                     minus   x . any*  for each character x excluded at the pointer
+    and compared with  function-name "(" any*  (RFC 9535 2.4).  Only the refuses-too-much direction is decided here."""
+    from ..automata import Alt
+    from ..automata import CharSet
+    from ..automata import Chars
+    from ..automata import Lang
+    from ..automata import Seq
+    from ..automata import common_partition
+    from ..automata import from_sre
+    from ..automata import lit
+    from ..automata import star
+    from ..automata import trailing_lookahead
+    from ..oracle import rfc9535 as R
+
+    F = "lex_inside_filter"
+    site = f"lex.{F}"
+    cell = "function-name-dispatch"
+    try:
+        steps = [s for s in lexer_iteration(model, F, filter_depth=1, bracket_top="[") if not s.skipped_blank]
+    except Unsupported as err:
+        report.undecided(rule, site, f"{cell}: {err}")
+        return
+    fsteps = [s for s in steps if any(t[0] == "FUNCTION" for t in s.tokens) and not s.error]
+    if not fsteps:
+        report.fail(rule, site, cell, "no path emits a FUNCTION token")
+        return
+    anything = star(Chars(CharSet.any()))
+    rfc = Seq(R.function_name, lit("("), anything)
+    parts: List[Tuple[Any, List[Any]]] = []
+    rxs: List[Any] = [rfc]
+    for s in fsteps:
+        pos_rx = [p for p, ok, off in s.regex if ok and off == 0]
+        if len(pos_rx) != 1 or any(off != 0 for _p, _ok, off in s.regex) or s.prefix:
+            report.undecided(rule, site, f"{cell}: the FUNCTION arm is not one name pattern matched at the pointer; step = {s.show()}")
+            return
+        la = trailing_lookahead(pos_rx[0])
+        follow = lit("(") if la is None else Chars(la[1] if la[0] else la[1].negate())
+        if la is not None and not (la[0] and la[1] == CharSet.of("(")):
+            report.fail(rule, site, f"{cell}:follow", f"the FUNCTION arm requires {la[1].show()} after the name, not '('")
+            return
+        accepted = Seq(from_sre(pos_rx[0]), follow, anything)
+        removed: List[Any] = [Seq(lit(c), anything) for c, truth in s.startswith if not truth and c]
+        removed += [Seq(from_sre(p), anything) for p, ok, off in s.regex if not ok]
+        if s.excluded.get(0):
+            removed.append(Seq(Chars(CharSet.of("".join(sorted(s.excluded[0])))), anything))
+        for c, truth in s.startswith:
+            if truth:
+                accepted = None  # a constant is required at the pointer as well: not the plain name arm
+        if accepted is None:
+            continue
+        parts.append((accepted, removed))
+        rxs += [accepted] + removed
+    if not parts:
+        report.undecided(rule, site, f"{cell}: no FUNCTION arm of a recognised shape")
+        return
+    classes = common_partition(rxs)
+    total = None
+    for accepted, removed in parts:
+        lang = Lang.from_rx(accepted, classes)
+        for r in removed:
+            lang = lang.product(Lang.from_rx(r, classes), "minus")
+        total = lang if total is None else total.product(lang, "or")
+    missing = Lang.from_rx(rfc, classes).product(total, "minus").minimize()
+    w = missing.shortest()
+    if w is None:
+        report.ok(rule, site, cell, detail={"function_arms": len(parts), "alphabet_classes": len(classes)})
+        return
+    # name the tests that take the witness away
+    s0 = fsteps[0]
+    culprits = [c for c, truth in s0.startswith if not truth and c and w.startswith(c)]
+    why = f" (the earlier test for {culprits[0]!r} takes the text first)" if culprits else ""
+    name = w.split("(")[0]
+    report.fail(rule, site, f"{cell}:refused:{'keyword-prefix' if culprits else 'other'}", f"function name '{name}' followed by '(' does not reach the arm that emits FUNCTION{why}: a call of a registered function with such a name is refused although RFC 9535 allows the name", what=cell)
